@@ -51,14 +51,19 @@ def run_history(cfg, hist, tokens=True):
     Couplings.compute = compute
     events = []
     rets = []
+    nq = 0
     try:
         for h in hist:
             if h[0] == "q":
                 mu2 = TOK_MU2[h[1]] if tokens else h[1]
                 before = {k: _bits(v) for k, v in obj.cache.items()}
                 steps.clear()
+                nq += 1
+                # every fifth query is put with NumPy scalars (as taken from an array of scales / flavour numbers);
+                # the fresh object is always asked with Python numbers
+                amu2, anf = (np.float64(mu2), np.int64(h[2])) if nq % 5 == 3 and h[2] else (mu2, h[2])
                 try:
-                    got = obj.a(mu2, h[2])
+                    got = obj.a(amu2, anf)
                 except Exception as ex:  # noqa: BLE001
                     # a query the library refuses (e.g. the coupling leaves the perturbative range): history
                     # independence means that a fresh object refuses it in the same way
